@@ -4,7 +4,7 @@ from . import monitors as M
 
 PLAN = [('chaos', 7, 5), ('misuse', 6, 1)]
 MONITORS = [M.mon_fault_body, M.mon_one_outcome, M.mon_body_set, M.mon_completion_barrier, M.mon_timeout]
-THEOREMS = "C07_refusals_do_not_crash, C07_reset_always_possible, C07_reset_cancels_first, C07_platform_bodies"
+THEOREMS = "C07_refusals_do_not_crash, C07_reset_always_possible, C07_reset_cancels_first, C07_platform_bodies, C07_every_schedule_covered"
 CORPUS = ['C05', 'C08', 'C07']
 
 
